@@ -12,9 +12,22 @@ Actors (everything between the boundaries of c13_fakes is repository code):
   so that other actors can act between any two events; a restart is a new
   ``AppCfgMgr`` plus a new watcher (pending events are lost, the manager is
   idle until the next readiness notification, as in production);
-* "node monitor": the real ``MonitorContainerDown`` / ``MonitorContainerCleanup``
-  tombstone actions, ``appcfg.abort.flag_aborted`` and the ``oom`` flag file
-  the cgroup service touches;
+* "supervisor" (s6 boundary): when a container's supervised process dies the
+  finish script (templates/s6.finish, policy limit 0) touches a tombstone file
+  ``tombstones/running/<instance>,<time>,<rc>,<signal>``; the driver writes
+  that file, for containers that ended on their own and for containers the
+  manager handed to cleanup (s6 stops them), at an arbitrary later point;
+* "node monitor": the real ``treadmill.monitor.Monitor`` with the real
+  ``MonitorContainerCleanup`` action configured on ``tombstones/running``; a
+  restartable actor: every life starts with the real ``_configure`` (re-reads
+  the tombstone directory, stale tombstones included) and runs the real
+  ``run()`` loop until nothing is pending; also ``MonitorContainerDown``,
+  ``appcfg.abort.flag_aborted`` and the ``oom`` flag file of the cgroup
+  service;
+* s6 control commands can be armed to fail (``subproc.CalledProcessError``)
+  for the next n calls; a failure escaping an AppCfgMgr handler
+  (``_refresh_supervisor`` does not catch it) is the manager process dying
+  and being restarted;
 * "cleanup service": the real ``Cleanup.invoke`` on one cleanup link;
 * "node start": ``run_real.sh`` empties ``running/`` and ``cleanup/`` and all
   services start again.
@@ -30,7 +43,7 @@ from . import c13_fakes as fakes
 
 _DIRS = ('cache', 'running', 'cleanup', 'apps', 'appevents', 'cleaning',
          'cleanup_apps', 'tombstones/running', 'tombstones/cleanup',
-         'tombstones/init')
+         'tombstones/init', 'monitor-config')
 
 MARK_RE = re.compile(r'vfgen=(\d+)=([01])=(\S+?)=end')
 
@@ -93,15 +106,39 @@ class HandlerError(Exception):
         self.err = err
 
 
+class ManagerCrash(Exception):
+    """An injected s6 failure escaped an AppCfgMgr handler: the manager
+    process dies (and is restarted by its supervisor)."""
+
+    def __init__(self, where, err):
+        Exception.__init__(self, '%s@%s' % (type(err).__name__, where))
+        self.where = where
+        self.err = err
+
+
+ROOT_VIA_SYMLINK = False     # set per case by the check (every 4th case)
+
+
 class Node:
     """One temporary Treadmill root with its actors."""
 
     def __init__(self):
         fakes.install()
+        fakes.new_case()
         from treadmill import eventmgr
-        self.root = tempfile.mkdtemp(prefix='vf-')
+        self._real_root = tempfile.mkdtemp(prefix='vf-')
+        self.root = self._real_root
+        if ROOT_VIA_SYMLINK:
+            # the Treadmill root is reached through a symlink (e.g. /treadmill -> /data/treadmill)
+            self.root = self._real_root + '.lnk'
+            os.symlink(self._real_root, self.root)
         for d in _DIRS:
             os.makedirs(os.path.join(self.root, d))
+        self.tombstone_dir = os.path.join(self.root, 'tombstones', 'running')
+        self.monitor_config = os.path.join(self.root, 'monitor-config')
+        with open(os.path.join(self.monitor_config, 'default'), 'w') as f:
+            # bootstrap/node/linux/init/monitor.yml
+            f.write('%s;container-cleanup\n' % self.tombstone_dir)
         self.cache_dir = os.path.join(self.root, 'cache')
         self.running_dir = os.path.join(self.root, 'running')
         self.cleanup_dir = os.path.join(self.root, 'cleanup')
@@ -110,9 +147,17 @@ class Node:
         self.mgr = None
         self.watch = None
         self.model_active = False      # harness' own view (from delivered events)
-        self.tombstones = {}           # inst -> (container, signal)
+        self.monitor = None
+        self.pending_exit = {}         # inst -> (container, signal): ended,
+        #                                tombstone not written yet
+        self.ended = set()             # containers that ended on their own
+        self.tombstoned = set()        # containers whose tombstone was written
+        self.tomb_owner = {}           # (id, timestamp) -> container
+        self.tomb_seq = 0
+        self.supervised = set()        # containers seen under running/
         self.counters = {}
         self.start_manager()
+        self.start_monitor()
 
     # -- life cycle -------------------------------------------------------
     def start_manager(self):
@@ -133,11 +178,24 @@ class Node:
             finally:
                 self.watch = None
 
+    def _close_monitor(self):
+        mon = self.monitor
+        self.monitor = None
+        fakes.forget_monitor_watcher()
+        if mon is not None and mon._dirwatcher is not None:
+            mon._dirwatcher.inotify.close()
+
     def close(self):
         try:
             self._close_watch()
+            self._close_monitor()
         finally:
-            shutil.rmtree(self.root, ignore_errors=True)
+            if self.root != self._real_root:
+                try:
+                    os.unlink(self.root)
+                except OSError:
+                    pass
+            shutil.rmtree(self._real_root, ignore_errors=True)
 
     def _count(self, name, n=1):
         self.counters[name] = self.counters.get(name, 0) + n
@@ -194,10 +252,17 @@ class Node:
             name = os.path.basename(path)
             dot = name.startswith('.') and name != '.ready'
             fakes.reset_logs()
+            self.note_supervised()
             try:
                 self.watch.process_events(max_events=1, resume=True)
             except Exception as err:      # pylint: disable=broad-except
+                from treadmill import subproc
+                if isinstance(err, subproc.CalledProcessError) \
+                        and fakes.fault_hits():
+                    raise ManagerCrash('_on_%s' % event.value, err)
                 raise HandlerError('_on_%s' % event.value, err)
+            finally:
+                self.note_supervised()
             if dot:
                 self._count('dot_events')
                 continue
@@ -218,13 +283,20 @@ class Node:
         except OSError:
             return None
 
+    def note_supervised(self):
+        for name in os.listdir(self.running_dir):
+            target = self.running_target(name)
+            if target is not None:
+                self.supervised.add(target)
+
     def container_exit(self, inst, how):
         """The container running for `inst` ends on its own."""
         from treadmill import monitor
         from treadmill import utils
         from treadmill.appcfg import abort as app_abort
         container = self.running_target(inst)
-        if container is None or inst in self.tombstones:
+        if container is None or inst in self.pending_exit \
+                or container in self.ended:
             return False
         cdir = os.path.join(self.apps_dir, container)
         data_dir = os.path.join(cdir, 'data')
@@ -249,30 +321,87 @@ class Node:
                 raise AssertionError(how)
         except Exception as err:      # pylint: disable=broad-except
             raise HandlerError('monitor.container_exit:%s' % how, err)
-        self.tombstones[inst] = (container, signal)
+        self.pending_exit[inst] = (container, signal)
+        self.ended.add(container)
         return True
 
+    def _write_tombstone(self, inst, container, signal, origin):
+        """templates/s6.finish: touch <path>/<id>,<%014.3f>,<%03d>,<%03d>."""
+        self.tomb_seq += 1
+        stamp = 1700000000.0 + self.tomb_seq
+        name = '%s,%014.3f,%03d,%03d' % (inst, stamp,
+                                         0 if not signal else 128 + signal,
+                                         signal)
+        with open(os.path.join(self.tombstone_dir, name), 'w'):
+            pass
+        self.tomb_owner[(inst, stamp)] = (container, origin)
+        self.tombstoned.add(container)
+
     def tombstone(self, inst):
-        """The node monitor processes the tombstone of a finished container
-        (its id is the instance name).  Tombstones are processed before the
-        same instance is configured again (ASSUMPTIONS): a tombstone whose
-        container is no longer the running target is dropped."""
+        """The supervised process of a container that ended on its own is
+        gone: the finish script leaves the tombstone (id = instance name)."""
+        if inst not in self.pending_exit:
+            return False
+        container, signal = self.pending_exit.pop(inst)
+        self._write_tombstone(inst, container, signal, 'ended-container')
+        return True
+
+    def terminated_candidates(self):
+        """Containers the manager took out of running/ (s6 stops them; their
+        finish script leaves a tombstone as well)."""
+        out = []
+        running = set(self.running_target(n)
+                      for n in os.listdir(self.running_dir))
+        for c in sorted(os.listdir(self.apps_dir)):
+            if c in self.tombstoned or c in self.ended or c in running:
+                continue
+            if c not in self.supervised:
+                continue
+            mark = read_marker(os.path.join(self.apps_dir, c, 'data',
+                                            'manifest.yml'))
+            if mark is not None:
+                out.append((c, mark[0]))
+        return out
+
+    def tombstone_terminated(self, idx):
+        cands = self.terminated_candidates()
+        if not cands:
+            return False
+        container, inst = cands[idx % len(cands)]
+        self._write_tombstone(inst, container, 15, 'terminated-container')
+        return True
+
+    def tombstone_files(self):
+        return sorted(n for n in os.listdir(self.tombstone_dir)
+                      if not n.startswith('.'))
+
+    def start_monitor(self):
+        """A new life of the monitor process (nothing runs until
+        run_monitor)."""
         from treadmill import monitor
-        if inst not in self.tombstones:
-            return False
-        container, signal = self.tombstones.pop(inst)
-        if self.running_target(inst) != container:
-            self._count('tombstones_dropped_stale')
-            return False
+        self._close_monitor()
+        self.monitor = monitor.Monitor(self.mgr.tm_env, self.monitor_config)
+        return True
+
+    def run_monitor(self):
+        """The real Monitor.run() until it would block.  Returns the list of
+        (id, timestamp, nth execution, result, owner container, running
+        target before, origin) of the tombstones executed."""
+        before = {n: self.running_target(n)
+                  for n in os.listdir(self.running_dir)}
         fakes.reset_logs()
         try:
-            monitor.MonitorContainerCleanup(self.mgr.tm_env).execute({
-                'id': inst, 'return_code': 0 if not signal else 128 + signal,
-                'signal': signal, 'timestamp': 1700000001.0,
-            })
+            self.monitor.run()
+        except fakes.MonitorIdle:
+            pass
         except Exception as err:      # pylint: disable=broad-except
-            raise HandlerError('MonitorContainerCleanup.execute', err)
-        return True
+            raise HandlerError('Monitor.run', err)
+        out = []
+        for tid, stamp, nth, res in fakes.tomb_log():
+            owner, origin = self.tomb_owner.get((tid, stamp), (None, None))
+            out.append((tid, stamp, nth, res, owner, before.get(tid),
+                        origin))
+        return out
 
     # -- "cleanup service" ------------------------------------------------
     def cleanup_links(self):
@@ -300,12 +429,17 @@ class Node:
     def node_start(self):
         """run_real.sh: rm running/* cleanup/*; every service starts again
         (the event manager starts not ready)."""
-        for d in (self.running_dir, self.cleanup_dir):
+        for d in (self.running_dir, self.cleanup_dir, self.tombstone_dir):
             for name in os.listdir(d):
-                os.unlink(os.path.join(d, name))
-        self.tombstones.clear()
+                try:
+                    os.unlink(os.path.join(d, name))
+                except IsADirectoryError:
+                    pass        # "rm -f" (no -r) leaves a directory behind
+        self.pending_exit.clear()
+        self.supervised.clear()
         ready = os.path.join(self.cache_dir, '.ready')
         if os.path.exists(ready):
             os.unlink(ready)
         self.start_manager()
+        self.start_monitor()
         return True
